@@ -80,6 +80,17 @@ out += [
     "type Dia2E struct {", "\tY int", "\tZ string `refmt:\"zz\"`", "}", "type Dia2D struct {", "\t*Dia2E", "}", "type Dia2C struct {", "\tDia2D", "\tW int", "}",
     "type Dia2A struct {", "\t*Dia2C", "}", "type Dia2B struct {", "\tDia2C", "}", "type Dia2S struct {", "\tDia2A", "\tDia2B", "\tY int", "}",
 ]
+# nil embedded pointers nested in each other, exported and unexported, two and three levels: a field behind an unexported
+# nil pointer cannot be reached (error), behind exported ones it is allocated on the way
+out += [
+    "type nLeaf struct {", "\tX int", "}", "type NLeafX struct {", "\tW int", "}",
+    "type NMid struct {", "\t*nLeaf", "\tM int", "}", "type NMid2 struct {", "\t*NLeafX", "\t*nLeaf", "}",
+    "type NTop struct {", "\t*NMid", "}", "type NTop2 struct {", "\t*NMid2", "\tT string", "}",
+    "type nMidU struct {", "\t*NLeafX", "}", "type NTop3 struct {", "\t*nMidU", "\t*NMid", "}",
+]
+roots.append(("NTop", ["NTop", "NMid", "nLeaf"]))
+roots.append(("NTop2", ["NTop2", "NMid2", "NLeafX", "nLeaf"]))
+roots.append(("NTop3", ["NTop3", "nMidU", "NMid", "NLeafX", "nLeaf"]))
 roots.append(("DiaS", ["DiaS", "DiaA", "DiaB", "DiaC", "DiaD"]))
 roots.append(("Dia2S", ["Dia2S", "Dia2A", "Dia2B", "Dia2C", "Dia2D", "Dia2E"]))
 
